@@ -9,17 +9,64 @@
    early, an error raised inside an item always propagates) and TypedDict (required keys, then
    the optional keys present; unknown keys ignored) are part of the grammar. *)
 From Coq Require Import List String ZArith Bool.
-From Verif Require Import Core TyModel TyProofs.
+From Verif Require Import Core TupleIdx TyModel TyTuple TyProofs TyStrict.
 Import ListNotations.
 
+(* Two readings of the reference for a tuple with an unpacked segment (TyModel.v, Section Mode):
+   [ref_dec]   the documented one: a sequence with fewer items than head + tail is an error
+               ([XTooFew]); otherwise head items / what lies between / tail items;
+   [ref_dec_l] what the generated code does: every position is read through the index / slice
+               plan of the arg_indexes loop (kernel K7, see C03_plan_is_code below), so on a short
+               sequence head and tail overlap.
+   They differ only there; on every type without an unpacked segment they are the same function. *)
+
+(* the generated unpacker IS the second reading, on every input *)
 Theorem C03_unpack_ref : forall (E: senv) (P: prims) (d: pv) (t: sty),
-  uk E P d (cu true t) = ref_dec E P d t.
+  uk E P d (cu true t) = ref_dec_l E P d t.
 Proof. exact decode_is_ref. Qed.
 Print Assumptions C03_unpack_ref.
 
+(* the two readings agree wherever the documented one does not say "too few items" ... *)
+Theorem C03_strict_or_same : forall (E: senv) (P: prims) (d: pv) (t: sty),
+  ref_dec E P d t = ref_dec_l E P d t \/ ref_dec E P d t = Exn XTooFew.
+Proof. intros E P d t. exact (strict_or_same E P d t). Qed.
+Print Assumptions C03_strict_or_same.
+
+(* ... hence the property at full strength against the documented reference, under the computable
+   guard "the reference does not reject the input as too short for head + tail" (for a tuple with an
+   unpacked segment at the top: input length >= head + tail) *)
+Theorem C03_unpack_ref_partial : forall (E: senv) (P: prims) (d: pv) (t: sty),
+  ref_dec E P d t <> Exn XTooFew -> uk E P d (cu true t) = ref_dec E P d t.
+Proof. exact decode_is_ref_strict. Qed.
+Print Assumptions C03_unpack_ref_partial.
+
+(* the unguarded statement, kept visible, is false: known finding C03/unpacked-tuple-short-input.
+   BasicDecoder(Tuple[int, Unpack[Tuple[str, ...]], bool]).decode([1]) == (1, True): the item is read
+   twice (value[0] and value[-1]) where the documented reference has too few items *)
+Definition C03_unpack_ref_full : Prop :=
+  forall (E: senv) (P: prims) (d: pv) (t: sty), uk E P d (cu true t) = ref_dec E P d t.
+
+Definition noP : prims := {|
+  p_render := fun k w => VStr w; p_parse := fun _ _ => None; p_enum_value := fun _ _ => None; p_enum_of := fun _ _ => None;
+  p_b64enc := fun b => b; p_b64dec := fun _ => None; p_int := fun _ => None; p_float := fun _ => None; p_str := fun _ => None |}.
+
+Theorem C03_unpack_short_input_refuted :
+  let t := STupleU [SIntT] (STupleVar SStrT) [SBoolT] in
+  uk [] noP (VList [VInt 1]) (cu true t) = Ok (VTuple [VInt 1; VBool true]) /\
+  ref_dec [] noP (VList [VInt 1]) t = Exn XTooFew.
+Proof. split; vm_compute; reflexivity. Qed.
+Print Assumptions C03_unpack_short_input_refuted.
+
+Theorem C03_unpack_ref_refuted : ~ C03_unpack_ref_full.
+Proof.
+  intros H. specialize (H [] noP (VList [VInt 1]) (STupleU [SIntT] (STupleVar SStrT) [SBoolT])).
+  vm_compute in H. discriminate H.
+Qed.
+Print Assumptions C03_unpack_ref_refuted.
+
 Theorem C03_field_unpacker : forall (E: senv) (P: prims) (d: pv) (t: sty) (cbn: bool),
   (cbn = false -> sty_nullable t = true -> is_none d = false) ->
-  uk E P d (cu cbn t) = ref_dec E P d t.
+  uk E P d (cu cbn t) = ref_dec_l E P d t.
 Proof. intros E P d t cbn. apply uk_cu_ref. Qed.
 Print Assumptions C03_field_unpacker.
 
@@ -52,20 +99,28 @@ Print Assumptions C03_well_typed_ord.
    for every amount of fuel; the fuel cannot run out unless a NamedTuple class reaches itself through
    NamedTuple / container positions *)
 Theorem C03_str_input_any_fuel : forall (E: senv) (P: prims) (n: nat) (t: sty) (s: String.string),
-  uk_str E P n (cu true t) s = ref_dec_str E P n t s.
+  uk_str E P n (cu true t) s = ref_dec_str_l E P n t s.
 Proof. intros E P n t s. exact (uk_str_ref E P n t true s). Qed.
 Print Assumptions C03_str_input_any_fuel.
 
-(* ... and the fuel [List.length E] is enough when the NamedTuple classes are ranked: [rk] bounds, for every
-   NamedTuple class, the number of NamedTuple classes a str can still descend through from its fields
-   ([need]: through list / set / tuple / Optional / NamedTuple positions; dataclasses, dicts and TypedDicts
-   stop the descent).  Then no RecursionError comes out. *)
-Theorem C03_str_fuel_sufficient : forall (E: senv) (P: prims) (rk: String.string -> nat),
-  (forall c k, sfind E KNamed c = Some k -> forall f, In f k.(sc_fields) -> (need rk f.(sf_ty) <= rk c)%nat) ->
-  forall (t: sty) (s: String.string), (need rk t <= List.length E)%nat ->
+(* ... and the fuel [List.length E] is enough on every class table whose NamedTuple reference graph is
+   acyclic.  [acyclic E] is a computable check: the depth-bounded ranks of all classes (longest chain of
+   NamedTuple classes a str can descend through: list / set / tuple / Optional / NamedTuple positions;
+   dataclasses, dicts and TypedDicts stop the descent) computed with depth |E| stay below |E| and do not
+   change at depth |E| + 1.  Then no RecursionError comes out, for any type and any str. *)
+Theorem C03_str_fuel_sufficient : forall (E: senv) (P: prims),
+  acyclic E = true ->
+  forall (t: sty) (s: String.string), uk_str E P (List.length E) (cu true t) s <> Exn XRecursion.
+Proof. intros E P HA t s. exact (uk_str_no_recursion_acyclic E P HA t true s). Qed.
+Print Assumptions C03_str_fuel_sufficient.
+
+(* the same with an explicit rank function instead of the computed one *)
+Theorem C03_str_fuel_sufficient_ranked : forall (E: senv) (P: prims) (rk: String.string -> nat),
+  (forall c k, sfind E KNamed c = Some k -> forall f, In f k.(sc_fields) -> (need E rk f.(sf_ty) <= rk c)%nat) ->
+  forall (t: sty) (s: String.string), (need E rk t <= List.length E)%nat ->
     uk_str E P (List.length E) (cu true t) s <> Exn XRecursion.
 Proof. intros E P rk HR t s Hn. exact (uk_str_no_recursion E P rk HR t true s Hn). Qed.
-Print Assumptions C03_str_fuel_sufficient.
+Print Assumptions C03_str_fuel_sufficient_ranked.
 
 (* non-vacuity: NT(a: int, b: Tuple[int, int] = (0, 0), c: int = 7) and
    TD(o: NotRequired[int], r: List[int]) *)
@@ -92,7 +147,7 @@ Example C03_named_defaults :
   dec (SNamed "NT") (VList [VInt 1; VList [VInt 2; VInt 3]; VInt 4; VInt 5]) = Ok (VNT "NT" [VInt 1; VTuple [VInt 2; VInt 3]; VInt 4]) /\
   dec (SNamed "NT") (VStr "1") = Ok (VNT "NT" [VInt 1; VTuple [VInt 0; VInt 0]; VInt 7]) /\
   dec (SNamed "NT") (VList []) = Exn XTypeError.                     (* a has no default *)
-Proof. repeat split; vm_compute; reflexivity. Qed.
+Proof. repeat (match goal with |- _ /\ _ => split end); vm_compute; reflexivity. Qed.
 
 (* ... but an item that is itself too short is an error, not "input exhausted" (fix 8ccb0df):
    [1, [5], 9] must not become NT(1, (0, 0), 7) *)
@@ -101,18 +156,52 @@ Example C03_named_nested_error :
   dec (SNamed "NT") (VStr "123") = Exn XIndexError.
 Proof. split; vm_compute; reflexivity. Qed.
 
-(* the example table is ranked by the constant 0 (NT's fields reach no NamedTuple) *)
-Example C03_example_ranked :
-  forall c k, sfind ntE KNamed c = Some k -> forall f, In f k.(sc_fields) -> (need (fun _ => O) f.(sf_ty) <= O)%nat.
-Proof.
-  intros c k H f Hf. cbn [ntE sfind sc_kind ckind_eqb andb sc_name] in H.
-  destruct (String.eqb "NT" c); [|discriminate H]. inversion H; subst k. cbn [sc_fields] in Hf.
-  destruct Hf as [Hf|[Hf|[Hf|[]]]]; subst f; cbn; repeat constructor.
-Qed.
+(* the example tables pass the acyclicity check; a self-referential NamedTuple (which Python cannot even
+   build a codec for) does not, and there the fuel does run out *)
+Definition cycE : senv :=
+  [ {| sc_kind := KNamed; sc_name := "A"; sc_fields := [ {| sf_name := "b"; sf_ty := SList (SNamed "B"); sf_default := None; sf_opt := false |} ] |};
+    {| sc_kind := KNamed; sc_name := "B"; sc_fields := [ {| sf_name := "a"; sf_ty := STupleFix [SNamed "A"]; sf_default := None; sf_opt := false |} ] |} ].
+Example C03_acyclic_examples :
+  acyclic ntE = true /\
+  acyclic [ {| sc_kind := KNamed; sc_name := "O"; sc_fields := [ {| sf_name := "i"; sf_ty := STupleVar (SNamed "NT"); sf_default := None; sf_opt := false |} ] |};
+            {| sc_kind := KNamed; sc_name := "NT"; sc_fields := [ {| sf_name := "a"; sf_ty := SIntT; sf_default := None; sf_opt := false |} ] |} ] = true /\
+  acyclic cycE = false /\
+  uk cycE ntP (VStr "x") (cu true (SNamed "A")) = Exn XRecursion.
+Proof. repeat (match goal with |- _ /\ _ => split end); vm_compute; reflexivity. Qed.
+
+(* nested constant expressions: N3(a0: None), N2(a0: N3) and Tuple[Tuple[None], N3] never read their
+   input (at any depth, through the class table); ND(a0: None = None) has a default, so N2D(a0: ND) does read *)
+Definition cE : senv :=
+  [ {| sc_kind := KNamed; sc_name := "N3"; sc_fields := [ {| sf_name := "a0"; sf_ty := SNoneT; sf_default := None; sf_opt := false |} ] |};
+    {| sc_kind := KNamed; sc_name := "N2"; sc_fields := [ {| sf_name := "a0"; sf_ty := SNamed "N3"; sf_default := None; sf_opt := false |} ] |};
+    {| sc_kind := KNamed; sc_name := "ND"; sc_fields := [ {| sf_name := "a0"; sf_ty := SNoneT; sf_default := Some VNone; sf_opt := false |} ] |};
+    {| sc_kind := KNamed; sc_name := "N2D"; sc_fields := [ {| sf_name := "a0"; sf_ty := SNamed "ND"; sf_default := None; sf_opt := false |} ] |};
+    {| sc_kind := KTyped; sc_name := "TK"; sc_fields := [ {| sf_name := "k"; sf_ty := SNamed "N2"; sf_default := None; sf_opt := false |} ] |} ].
+Example C03_nested_constants :
+  uk cE ntP VNone (cu true (SNamed "N2")) = Ok (VNT "N2" [VNT "N3" [VNone]]) /\
+  uk cE ntP (VList []) (cu true (SNamed "N2")) = Ok (VNT "N2" [VNT "N3" [VNone]]) /\
+  uk cE ntP (VInt 5) (cu true (STupleFix [STupleFix [SNoneT]; SNamed "N3"])) = Ok (VTuple [VTuple [VNone]; VNT "N3" [VNone]]) /\
+  uk cE ntP (VInt 5) (cu true (STyped "TK")) = Ok (VDict [(VStr "k", VNT "N2" [VNT "N3" [VNone]])]) /\
+  uk cE ntP VNone (cu true (SNamed "N2D")) = Exn XTypeError /\
+  uk cE ntP (VList [VInt 5]) (cu true (SNamed "N2D")) = Ok (VNT "N2D" [VNT "ND" [VNone]]).
+Proof. repeat (match goal with |- _ /\ _ => split end); vm_compute; reflexivity. Qed.
+
+(* collection unpackers rebuild the canonical concrete classes, from any iterable / mapping input *)
+Example C03_collections :
+  let box b x := VObj (box_name b) [("", x)] in
+  dec (SSeq SIntT) (VTuple [VInt 1; VStr "2"]) = Ok (VList [VInt 1; VInt 2]) /\
+  dec (SBox BDeque (SSeq SIntT)) (VStr "12") = Ok (box BDeque (VList [VInt 1; VInt 2])) /\
+  dec (SBox BCounter (SMap SStrT SIntT)) (VDict [(VStr "a", VStr "1")]) = Ok (box BCounter (VDict [(VStr "a", VInt 1)])) /\
+  dec (SBox BChain (SSeq (SMap SStrT SIntT))) (VList []) = Ok (box BChain (VList [])) /\
+  dec (SBox BChain (SSeq (SMap SStrT SIntT))) (VList [VDict []]) = Ok (box BChain (VList [])) /\
+  dec (SBox BChain (SSeq (SMap SStrT SIntT))) (VDict [(VStr "a", VInt 1)]) = Exn XAttributeError /\
+  dec (SMap SStrT SIntT) (VList []) = Exn XAttributeError /\
+  dec (SBox BOrdered (SMap SStrT SIntT)) VNone = Exn XAttributeError.
+Proof. cbv zeta. repeat (match goal with |- _ /\ _ => split end); vm_compute; reflexivity. Qed.
 
 Example C03_typed_optional_key :
   dec (STyped "TD") (VDict [(VStr "zz", VNone); (VStr "r", VList [VStr "2"])]) = Ok (VDict [(VStr "r", VList [VInt 2])]) /\
   dec (STyped "TD") (VDict [(VStr "o", VStr "1"); (VStr "r", VList [])]) = Ok (VDict [(VStr "r", VList []); (VStr "o", VInt 1)]) /\
   dec (STyped "TD") (VDict [(VStr "o", VInt 1)]) = Exn XKeyError /\
   dec (STyped "TD") (VList []) = Exn XTypeError.
-Proof. repeat split; vm_compute; reflexivity. Qed.
+Proof. repeat (match goal with |- _ /\ _ => split end); vm_compute; reflexivity. Qed.
